@@ -121,8 +121,14 @@ def monitor(case, obs):
 
 def classify(case, obs, verdict, model):
     fl = (model or {}).get("flags", [])
-    if "K1" in fl or "K2" in fl: return None
+    if "K5" in fl and "which is not (any more) a line read from the console" in verdict: return "K5"
     return None
+
+
+def run_witness(wit):
+    case = with_cc(dict(op="machine", mode="app", width=80, exc_handler=False, run_empty=False, **wit))
+    v = monitor(case, run_impl(case))
+    return v is not None and "which is not (any more)" in v
 
 
 def nontrivial(case, obs):
